@@ -269,17 +269,19 @@ void mmd_transclude_source(DString * source, const char * search_path, const cha
 				// Erase transclusion token from current source
 				d_string_erase(source, start - source->str, 2 + stop - start);
 
+				// Find the file's own metadata before its markers are expanded --
+				// afterwards an expanded first line could look like a metadata line
+				e = mmd_engine_create_with_dstring(buffer, EXT_TRANSCLUDE);
+				bool has_meta = mmd_engine_has_metadata(e, &offset);
+				mmd_engine_free(e, false);
+
 				// Recursively check this file for transclusions
 				mmd_transclude_source(buffer, search_folder, file_path->str, format, parse_stack, manifest);
 
 				// Strip metadata from buffer now that we have parsed it
-				e = mmd_engine_create_with_dstring(buffer, EXT_TRANSCLUDE);
-
-				if (mmd_engine_has_metadata(e, &offset)) {
+				if (has_meta) {
 					d_string_erase(buffer, 0, offset);
 				}
-
-				mmd_engine_free(e, false);
 
 				// Insert file text -- this may cause d_string to reallocate the
 				// character buffer, meaning start/stop are no longer valid
